@@ -3,7 +3,7 @@
    /repo/tlslite/utils/constanttime.py by the translator on every run (Gen/ConstantTime.v). *)
 From Coq Require Import ZArith List Bool.
 From TV Require Import Base.Prelude Gen.ConstantTime Spec.CbcCheck Proofs.CtOps
-                       Proofs.C12_Lemmas Proofs.C12_Check Toy.ToyMac.
+                       Proofs.C12_Lemmas Proofs.C12_Check Proofs.C12_Sender Toy.ToyMac.
 Import ListNotations.
 Open Scope Z_scope.
 
@@ -32,6 +32,30 @@ Theorem check_eq_spec :
     u32 bs ->
     ct_check_cbc_mac_and_pad data mac seq ty ver bs = Ok (well_formed ver bs mac seq ty data).
 Proof. exact check_eq_spec_sec. Qed.
+
+(* No record of a conforming peer is rejected: any body payload ++ MAC ++ padding ++ [p] built as
+   RFC 5246 6.2.3.2 / RFC 6101 5.2.3.2 prescribe (TLS: the p padding bytes all equal p, any
+   0 <= p; SSLv3: any padding bytes, p <= block size) is well formed, hence - by check_eq_spec -
+   accepted by the generated check. *)
+Theorem sender_accepted :
+  forall (ver : Z * Z) (bs : Z) (mac : HMac) (seq : list Z) (ty : Z) (payload padbytes : list Z) (p : Z),
+    let tag := mac_fn mac (mac_acc mac ++ mac_header seq ty ver (zlen payload) ++ payload) in
+    zlen tag = mac_ds mac ->
+    zlen padbytes = p ->
+    (if is_ssl3 ver then p <=? bs = true else forallb (fun x => x =? p) padbytes = true) ->
+    well_formed ver bs mac seq ty (payload ++ tag ++ padbytes ++ [p]) = true.
+Proof. exact sender_accepted_lem. Qed.
+
+(* What RecordLayer._decryptThenMAC strips after an accepted check, data[:-(p+1+digest_size)]
+   with Python's slice semantics, is exactly the fragment the MAC was computed over. *)
+Theorem strip_correct :
+  forall (ver : Z * Z) (bs : Z) (mac : HMac) (seq : list Z) (ty : Z) (data : list Z),
+    0 <= mac_ds mac -> all_bytes data = true ->
+    well_formed ver bs mac seq ty data = true ->
+    let p := nthZ data (zlen data - 1) in
+    py_slice data None (Some (- (p + 1 + mac_ds mac))) =
+      firstn (Z.to_nat (zlen data - p - 1 - mac_ds mac)) data.
+Proof. exact strip_correct_lem. Qed.
 
 (* the hypotheses are satisfiable: the toy MAC used in the correspondence meets the oracle contract *)
 Example mac_contract_satisfiable : forall key m,
